@@ -30,7 +30,7 @@ SetLength(v, n) == /\ IsArr(v) /\ vs' = [vs EXCEPT ![v] = <<"Array", Grow(vs[v][
                    /\ pads' = pads \cup NewPads(vs[v][2], n) /\ UNCHANGED <<ls, mut>>
 \* a caller changes, in place, the Null element that growth put at position i (elements are shared by reference
 \* between an array and its shallow copies, so exactly the arrays holding THAT element see it)
-MutElem(v, i) == /\ mut' = IF IsArr(v) /\ i < Len(vs[v][2]) /\ vs[v][2][i + 1] \in pads THEN mut \cup {vs[v][2][i + 1]} ELSE mut
+MutElem(v, i) == /\ mut' = IF IsArr(v) /\ i >= 0 /\ i < Len(vs[v][2]) /\ vs[v][2][i + 1] \in pads THEN mut \cup {vs[v][2][i + 1]} ELSE mut
                  /\ UNCHANGED <<vs, ls, pads>>
 \* what an observer sees of an element: named elements by name, growth elements as "nul" or, once changed, "other"
 Seen(id, pp, mm) == IF id \in pp THEN (IF id \in mm THEN "other" ELSE "nul") ELSE id
